@@ -200,6 +200,56 @@ def check_history(ptype, data, seq, out, stats):
     stats['histories'] += 1
 
 
+def check_aliasing(value, out, stats):
+    """What a receiver does with a decoded payload is its own business: decoding the same representation again (same or
+    another packet type, after the first result was emptied / extended in place) returns the payload written in the packet;
+    and a sender that changes its object after encode() gets the new content from a new packet."""
+    import copy
+    import json as _json
+    packet = _packet()
+    text = _json.dumps(value, separators=(',', ':'))
+    for t1, t2 in ((4, 4), (4, 3), (2, 4)):
+        stats['cases'] += 1
+        stats['nontrivial'] += 1
+        ref = copy.deepcopy(value)
+        try:
+            first = packet.Packet(encoded_packet=str(t1) + text).data
+            if isinstance(first, dict):
+                first.clear()
+                first['injected'] = 1
+            elif isinstance(first, list):
+                first.append('injected')
+                for x in first:
+                    if isinstance(x, (dict, list)):
+                        x.clear()
+            second = packet.Packet(encoded_packet=str(t2) + text).data
+            stats['decodes'] += 2
+        except Exception as e:
+            out.append(_viol('decode_raised', {'harness': 'aliasing', 'value': ref}, 'decoding %r twice raised %r' % (text, e), 'aliasing'))
+            continue
+        if not codec.payload_equal(second, ref) or type(second) is not type(ref):
+            out.append(_viol('decode_mismatch', {'harness': 'aliasing', 'value': ref},
+                             'second decode of %r (after the receiver of the first had changed its copy in place) returned %r, want %r'
+                             % (str(t2) + text, second, ref), 'aliasing'))
+    # sender side: the object is changed between two packets built from it
+    obj = copy.deepcopy(value)
+    try:
+        e1 = packet.Packet(4, data=obj).encode()
+        if isinstance(obj, dict):
+            obj['later'] = True
+        elif isinstance(obj, list):
+            obj.append('later')
+        e2 = packet.Packet(4, data=obj).encode()
+        want2 = codec.ref_encode(4, obj, True)
+        stats['encodes'] += 2
+        if e2 != want2:
+            out.append(_viol('encode_mismatch', {'harness': 'aliasing', 'value': copy.deepcopy(value)},
+                             'a packet built from an object changed since an earlier encode() encodes to %r, want %r (earlier: %r)' % (e2, want2, e1),
+                             'aliasing'))
+    except Exception as e:
+        out.append(_viol('encode_raised', {'harness': 'aliasing', 'value': copy.deepcopy(value)}, 'encoding raised %r' % (e,), 'aliasing'))
+
+
 # ------------------------------------------------------------- enumerations
 
 def strings_upto(alpha, n):
@@ -323,6 +373,9 @@ def _work(chunk):
                     v.sig = dict(v.sig, trigger='custom_json_module')
         finally:
             _pk.Packet.json = saved
+    elif kind == 'aliasing':
+        for v in items:
+            check_aliasing(v, out, stats)
     elif kind == 'history':
         for (t, d, n) in items:
             for k in range(1, n + 1):
@@ -352,6 +405,8 @@ def run(ctx):
     chunks += [('bytes', c) for c in parallel.split(bts, ctx.workers)]
     chunks += [('history', c) for c in parallel.split(hist, ctx.workers)]
     chunks += [('json_modules', json_lookalikes() + values + ['', 'plain', '0', '-7', '1e3', 'true', 'null'])]
+    chunks += [('aliasing', [v for v in values if isinstance(v, (dict, list))] +
+                [{'type': 'add', 'items': [1, 2]}, [{'a': [1]}, [2]], {'k': {'n': {}}}, [], {}])]
     res = parallel.pmap_chunks(_work, chunks, ctx.workers, ctx.seed)
     tot = {}
     nviol = 0
@@ -398,6 +453,9 @@ def replay(ctx, payload):
     stats = {'encodes': 0, 'decodes': 0, 'decode_errors': 0, 'histories': 0}
     if r['harness'] == 'history':
         check_history(r['type'], r['data'], r['seq'], out, stats)
+    elif isinstance(r.get('case'), dict) and r['case'].get('harness') == 'aliasing':
+        stats.update(cases=0, nontrivial=0)
+        check_aliasing(r['case']['value'], out, stats)
     else:
         c = r['case']
         if 'rep' in c and 'type' not in c:
